@@ -9,17 +9,15 @@ def short(s, n):
     s = re.sub(r"\s+", " ", (s or "").replace("|", "/")).strip()
     return s if len(s) <= n else s[: n - 3] + "..."
 
-rows = ["| id | what was changed (author's summary) | needs, to manifest | target check (quick) | other checks that fired |", "|---|---|---|---|---|"]
+rows = ["| id | what was changed (author's summary) | needs, to manifest | own check (quick) | C03 check (quick) |", "|---|---|---|---|---|"]
 for f in sorted(glob.glob(os.path.join(ROOT, "seeded", "C*", "meta.json"))):
     m = json.load(open(f))
     q = m.get("checks_run", {}).get("quick", {})
     prop = m["property"]
     tgt = q.get(prop, {})
     mons = sorted(set(s.split("] ", 1)[-1].split("|")[1] for s in tgt.get("signatures", [])))[:3]
-    others = sorted(k for k, v in q.items() if k != prop and v.get("verdict") == "CAUGHT")
-    silent = sorted(k for k, v in q.items() if k != prop and v.get("verdict") == "MISSED")
-    o = (", ".join(others) if others else "-") + ((" (silent: %d others)" % len(silent)) if silent else "")
-    rows.append("| %s | %s | %s | %s: %s | %s |" % (m["id"], short(m.get("breaks"), 170), short(m.get("needs_to_manifest"), 150), tgt.get("verdict", "not run"), ", ".join(mons), o))
+    c3 = "(own)" if prop == "C03" else q.get("C03", {}).get("verdict", "not run")
+    rows.append("| %s | %s | %s | %s: %s | %s |" % (m["id"], short(m.get("breaks"), 170), short(m.get("needs_to_manifest"), 150), tgt.get("verdict", "not run"), ", ".join(mons), c3))
 table = "\n".join(rows)
 p = os.path.join(ROOT, "DESIGN.md")
 s = open(p).read()
